@@ -37,6 +37,10 @@ func main() {
 			os.Exit(2)
 		}
 		r := NewRun(prop, tier, seed)
+		m, note := applyMutantFromEnv()
+		if m != nil && note != "" {
+			os.Exit(finishMutant(m, r, note))
+		}
 		func() {
 			defer func() {
 				if e := recover(); e != nil {
@@ -48,7 +52,50 @@ func main() {
 			}()
 			f(r)
 		}()
+		if m != nil {
+			os.Exit(finishMutant(m, r, ""))
+		}
+		if tier == "thorough" {
+			res, err := runSelfTest(prop)
+			if err != nil {
+				r.Undecide("self-test could not run: %v", err)
+			}
+			det := 0
+			for _, x := range res {
+				switch x.Status {
+				case "detected":
+					det++
+				case "stale":
+					fmt.Fprintf(os.Stderr, "note: seeded variant %s is stale (%v)\n", x.Name, x.Undecided)
+				default:
+					r.Undecide("seeded variant %q (%s) was not detected by rule %s: status=%s fired=%v %v", x.Name, prop, x.Expect, x.Status, x.Fired, x.Undecided)
+				}
+			}
+			r.Extra["seeded_variants"] = res
+			r.Stats["seeded_variants_run"] = len(res)
+			r.Stats["seeded_variants_detected"] = det
+		}
 		os.Exit(r.Finish())
+	case "cfg":
+		// debug: synnaxlint cfg <module> <pkg> <recv> <name>
+		p, err := Load(os.Args[2])
+		if err != nil {
+			fmt.Println(err)
+			os.Exit(2)
+		}
+		fn := p.Func(os.Args[3], os.Args[4], os.Args[5])
+		c := p.CFG(fn)
+		for _, b := range c.G.Blocks {
+			fmt.Printf("block %d kind=%s live=%v succs=", b.Index, b.Kind, b.Live)
+			for _, s := range b.Succs {
+				fmt.Printf("%d ", s.Index)
+			}
+			fmt.Println()
+			for _, n := range b.Nodes {
+				fmt.Printf("    %s  %T %s\n", p.Position(n.Pos()), n, describe(n))
+			}
+		}
+		os.Exit(0)
 	case "replay":
 		os.Exit(replay(os.Args[2]))
 	default:
